@@ -95,10 +95,18 @@ impl Bind {
 
     /// whether no generic is bound to anything but itself or the bottom type
     pub(crate) fn is_trivial(&self) -> bool {
-        self.bound_generics.iter().all(|(k, v)| match v.as_ref() {
-            XType::XGeneric(g) => g == k,
-            XType::XUnknown => true,
-            _ => false,
+        self.is_trivial_except(&[])
+    }
+
+    /// whether no generic outside `own` is bound to anything but itself or the bottom type
+    pub(crate) fn is_trivial_except(&self, own: &[Identifier]) -> bool {
+        self.bound_generics.iter().all(|(k, v)| {
+            own.contains(k)
+                || match v.as_ref() {
+                    XType::XGeneric(g) => g == k,
+                    XType::XUnknown => true,
+                    _ => false,
+                }
         })
     }
 }
@@ -269,6 +277,10 @@ impl XFuncSpec {
         let mut ret = Bind::new();
         for (arg, param) in args.iter().zip(self.params.iter()) {
             ret = ret.mix(&param.type_.bind_in_assignment(arg)?)?;
+        }
+        // generic parameters of an enclosing function are not this function's to instantiate
+        if !ret.is_trivial_except(self.generic_params.as_deref().unwrap_or(&[])) {
+            return None;
         }
         Some(ret)
     }
